@@ -557,6 +557,33 @@ def self_skillrq(rng, k=0):
     return 'scen:selfskill', u.lines(), ops, meta_of(ops, u.attr_ids(), setup)
 
 
+def nested_autocharge(rng, k=0):
+    """a charge whose own type defines an autocharge: the module's state is the state of the charge and of
+    the charge's autocharge; it is switched after fitting, the charge is taken out and put back"""
+    X, S = 1010, 1001
+    AMMO = int(AttrId.ammo_loaded)
+    TA = int(EffectId.target_attack)
+    u = U()
+    for a in (X, S, AMMO):
+        u.attr(a)
+    cat = [EC.active, EC.online, EC.overload][k % 3]
+    u.effect(TA, EC.target)
+    u.effect(2001, cat, [U.mod(F.item, D.ship, X, OP.post_percent, S)])
+    u.type(3100, 50, int(TC.ship), {X: 100})
+    u.type(3200, 51, int(TC.module), {})
+    u.type(3300, 52, int(TC.charge), {AMMO: 3301}, [TA])
+    u.type(3301, 52, int(TC.charge), {S: 50}, [2001], default=2001 if k % 3 == 0 else None)
+    st = {0: 3, 1: 2, 2: 4}[k % 3]
+    ops = base_world(1) + ['new 10 ship 3100 1 0', 'new 12 modhigh 3200 1 0', 'new 30 charge 3300 1 0',
+                           'slot 1 ship 10']
+    ops += [['charge 12 30', 'rappend 1 high 12'], ['rappend 1 high 12', 'charge 12 30']][(k // 3) % 2]
+    setup = len(ops)
+    ops += ['get 10 %d' % X, 'state 12 %d' % st, 'get 10 %d' % X, 'state 12 1', 'get 10 %d' % X,
+            'state 12 %d' % st, 'charge 12 -', 'get 10 %d' % X, 'charge 12 30', 'get 10 %d' % X,
+            'source 1 -', 'source 1 1', 'get 10 %d' % X, 'rremove 1 high item 12', 'get 10 %d' % X]
+    return 'scen:nestedauto', u.lines(), ops, meta_of(ops, u.attr_ids(), setup)
+
+
 COMMANDS = {'solsys', 'fit', 'new', 'source', 'ssadd', 'ssrm', 'ssclear', 'slot', 'sadd', 'srm', 'sclear', 'skilldel',
             'rappend', 'rinsert', 'rplace', 'requip', 'rremove', 'rfree', 'rclear', 'charge', 'state', 'target',
             'mode', 'level', 'fladd', 'flrm', 'flclear', 'get', 'read', 'keys', 'm_mod', 'm_pymod', 'm_effect',
@@ -564,7 +591,8 @@ COMMANDS = {'solsys', 'fit', 'new', 'source', 'ssadd', 'ssrm', 'ssclear', 'slot'
 
 SCENARIOS = [cap_moves, resist_moves, chain_over_projection, burst_charge, buff_tie, retarget_reload, slot_index,
              propulsion, ancillary, propulsion_batch, rejected_assignment, autocharge_state, burst_nobase,
-             refused_join, unloaded_container, drone_target, self_skillrq]
+             refused_join, unloaded_container, drone_target, self_skillrq,
+             nested_autocharge]
 
 
 def scenarios(rng, tier):
